@@ -191,6 +191,7 @@ pub fn pass(src: &Plane, axis: &Axis, horizontal: bool, kind: CompKind, off: usi
             let mut sabs = 0.0;
             let mut sx = 0.0;
             let mut eprop = 0.0;
+            let mut esum = 0.0;
             let mut mag = 0.0;
             for (i, &wt) in win.w.iter().enumerate() {
                 let (sxi, syi) = if horizontal { (win.start + i, oy + off) } else { (ox + off, win.start + i) };
@@ -200,12 +201,16 @@ pub fn pass(src: &Plane, axis: &Axis, horizontal: bool, kind: CompKind, off: usi
                 sabs += (wt * v).abs();
                 sx += v.abs();
                 eprop += wt.abs() * src.err[idx];
+                esum += src.err[idx];
                 mag += wt.abs() * src.mag[idx];
             }
             let e = match kind {
                 CompKind::U8 | CompKind::U16 => 0.5 + 2f64.powi(-(p.unwrap() + 1)) * sx + 1e-7,
-                CompKind::I32 => 0.5 + sabs * 2f64.powi(-40) + 1e-13 * sx + 1e-7,
-                CompKind::F32 => 0.5 * ulp32_up(s.abs() + sabs * 2f64.powi(-40)) + sabs * 2f64.powi(-40) + 1e-13 * sx,
+                // the kernel-evaluation slack (1e-13 per weight) applies to the true input values, which may differ
+                // from the model's by their own error: a tap whose ideal weight is exactly 0 at the support edge but
+                // 3e-16 in another correct evaluation, times an intermediate value that is 0 here and 3e-16 there
+                CompKind::I32 => 0.5 + sabs * 2f64.powi(-40) + 1e-13 * (sx + esum) + 1e-7,
+                CompKind::F32 => 0.5 * ulp32_up(s.abs() + sabs * 2f64.powi(-40)) + sabs * 2f64.powi(-40) + 1e-13 * (sx + esum),
             };
             let mut e = e + eprop + win.slack * (sx + s.abs());
             if win.ambiguous || win.w.is_empty() {
